@@ -4,6 +4,7 @@ import RR.Model.Source
 import RR.Model.Dsp
 import RR.Model.Conv
 import RR.Model.FileSrc
+import RR.Model.AuBlock
 import RR.Model.Util
 
 /-!
@@ -86,7 +87,7 @@ def Sim.work {B : Block} (s : Sim B) : Sim B :=
     let (net', o) := s.net.work
     let fit := if o.fits v then "" else ":MISFIT"
     let line := s!"W:{showVerdict o.verdict}:{commaNats o.consumed}:{commaNats (o.produced.map (·.samples.length))}{fit}"
-    { s with net := net', trace := s.trace ++ [line], dead := o.verdict == .panic }
+    { s with net := net', trace := s.trace ++ [line], dead := o.verdict == .panic || o.verdict == .err }
 
 def parseAct (t : String) : Option (Char × Nat × Nat) :=
   match t.toList with
@@ -121,6 +122,10 @@ def runBlock (B : Block) (sections : List (List String)) : String :=
     match s with
     | "I" :: rest => (nats rest).bind fun
       | cap :: len :: seed :: m :: tbl => some (cap, genData len seed m tbl)
+      | _ => none
+    -- literal input data
+    | "L" :: rest => (nats rest).bind fun
+      | cap :: data => some (cap, data)
       | _ => none
     | _ => none
   let outs := sections.filterMap fun s =>
@@ -175,6 +180,7 @@ def sourceRegistry (name : String) (p : List Nat) : Option Block :=
   | "fsrc", [rep, len, seed, size] =>
     -- a file of `len` bytes (byte i = generated value mod 256) read as `size`-byte little-endian samples
     some (Src.fsBlock (genData len seed 256 []) size (if rep == 2 ^ 32 then Src.Repeat.infinite else Src.Repeat.finite rep))
+  | "audec", [bitrate] => some (Au.decBlock bitrate Au.deqF32)
   | "sgsrc", [rep, len, seed, size] =>
     some (Src.sgBlock (Src.tameBytes (genData len seed 256 [])) size (if rep == 2 ^ 32 then Src.Repeat.infinite else Src.Repeat.finite rep))
   | _, _ => none
